@@ -1,8 +1,80 @@
-"""C04 - counting-guided stable search; see DESIGN.md section 5"""
-from . import semprops, semjobs
+"""C04 - counting-guided stable search; see DESIGN.md section 5
+
+Besides the end-to-end jobs (semjobs: the whole procedure on symbolic ADF families) there is one unit-level job on the mechanism the
+property is anchored in, Bdd::interpretations ("path cubes towards a goal value", documented: "it is ensured that the goal is consistent
+with the respective interpretation").  The search overwrites the goal statement with the goal value on every cube; a cube that
+contradicts the goal on the goal variable makes two branches overlap, i.e. a stable model is reported twice.  The unit job asks the
+solver for a diagram (all functions over n variables), goal and goal variable with such a cube.  A hit is *not* reported as it stands -
+the contract is the function's, not the property's: the native side then looks for an ADF having that diagram as the condition of the
+goal statement on which heuristics a / b really answer wrongly (judged against the definition).  Only such an ADF is a violation;
+a contract breach without one is recorded as a note in the evidence."""
+import json
+import z3
+from mirse.engine import *
+from mirse.hlib import *
+from mirse.runner import Job
+from . import semprops, semjobs, adflib as A
+
 # the pre-study family: b: and(b,a), c: c, statement a symbolic (contains a: c, where heuristics a/b lose the stable model FFF)
 B_AND_BA = [((a >> 1) & 1) & (a & 1) for a in range(8)]
 C_C = [(a >> 2) & 1 for a in range(8)]
-spec, validate = semprops.make(['heu_a', 'heu_b'], 'heu_a', must3=[['sym', B_AND_BA, C_C]], backend_kinds=('stable_counting',), quick_n3=10, extra_params={'heu_b': {'skip_n4': True}})
-replay = semprops.replay
-key = semprops.key
+PROCS = ['heu_a', 'heu_b']
+_spec, validate = semprops.make(PROCS, 'heu_a', must3=[['sym', B_AND_BA, C_C]], backend_kinds=('stable_counting',), quick_n3=16, extra_params={'heu_b': {'skip_n4': True}})
+
+
+def cube_job(e, p):
+    """Bdd::interpretations on every diagram over n variables: no cube may fix the goal variable to the opposite of the goal"""
+    n = p['n']
+    tab = tt_bits('f', n)
+    bdd, r = new_bdd(e)
+    for v in range(n): e.call('obdd::Bdd::variable', [r, T(v)])
+    f = build_shannon(e, r, tab, n)
+    h = tv(f)
+    if is_sym(h) or h <= 1: return {'constant': True}
+    empty = SliceRef([], 0, 0)
+    seen = 0
+    for goal in (False, True):
+        for gv in range(n):
+            res = e.call('obdd::Bdd::interpretations', [r, e.copyval(f), goal, T(gv), empty, empty])
+            for it_ in res.items:
+                neg = [e.concretize(tv(x)) if is_sym(tv(x)) else tv(x) for x in it_.f[0].items]
+                pos = [e.concretize(tv(x)) if is_sym(tv(x)) else tv(x) for x in it_.f[1].items]
+                seen += 1
+                if gv in (neg if goal else pos) or p.get('canary'):
+                    m = sat_model(e, True)
+                    report(e, 'cube-contract', what='interpretations(goal=%s, goal_var=%d) yields the cube -%s +%s, which contradicts the goal on the goal variable'
+                           % (goal, gv, neg, pos), case={'n': n, 'tab': tables_from_model(m, [[zb(b) for b in tab]])[0], 'goal': goal, 'goal_var': gv, 'cube': [neg, pos]})
+                    return {'cubes': seen}
+    return {'cubes': seen}
+
+
+def spec(ctx, tier, seed):
+    s = _spec(ctx, tier, seed)
+    s['jobs'].append(Job('unit-cubes-n3', 'harness.c04', 'cube_job', {'n': 3}, stop_after_violations=6))
+    if tier == 'thorough': s['jobs'].append(Job('unit-cubes-n4', 'harness.c04', 'cube_job', {'n': 4}, stop_after_violations=6))
+    s['bounds'] += (' Unit job on Bdd::interpretations: all 256 diagrams over three variables (thorough: all 65 536 over four), both goals, every goal variable; '
+                    'a contract breach is turned into an ADF by a native search over the completions (all 65 536 for three statements, 60 000 pseudo-random for four).')
+    return s
+
+
+def replay(ctx, v):
+    if v.get('kind') != 'cube-contract': return semprops.replay(ctx, v)
+    c = v['case']; nat = ctx.native(release=True)
+    out = nat.call({'cmd': 'completion_search', 'n': c['n'], 'pos': c['goal_var'], 'tab': c['tab'], 'procs': PROCS, 'reference': 'stable', 'limit': 70000, 'want': 4}, timeout=600)
+    tried = out.get('tried')
+    for cand in out.get('candidates', []):
+        case = {'n': c['n'], 'tabs': cand['tabs'], 'proc': cand['proc']}
+        o2 = ctx.native().call(semjobs.native_cmd(case), timeout=20)
+        probs = semjobs.judge_native(o2, case)
+        if probs:
+            # the reported violation is the ADF-level one: rewrite the record so that key, replay and report speak about the ADF
+            v['kind'] = 'wrong-stable'; v['unit_counterexample'] = c; v['case'] = case
+            v['what'] = '%s on an ADF whose statement %d has the condition found by the unit job: %s' % (cand['proc'], c['goal_var'], '; '.join(probs)[:300])
+            return 'reproduced', {'native_output': o2, 'problems': probs, 'completions_tried': tried}
+    return 'lemma-only', {'completions_tried': tried, 'note': 'Bdd::interpretations breaks its documented contract on %s, but none of the tried ADFs with that condition makes heuristics a/b answer wrongly' % json.dumps(c)}
+
+
+def key(v):
+    if v.get('kind') == 'cube-contract':
+        c = v['case']; return 'cube-contract:%s' % json.dumps([c['n'], c['tab'], c['goal'], c['goal_var']])
+    return semprops.key(v)
